@@ -633,7 +633,8 @@ def main():
         p = os.path.join(repo, rel)
         if os.path.exists(p):
             sources[rel] = sha(p)
-    print(json.dumps({"files": digest, "sources": sources}))
+    fn_units = {unit: {"c_file": cfile, "functions": fns} for unit, cfile, fns, _ in FNUNITS}
+    print(json.dumps({"files": digest, "sources": sources, "fn_units": fn_units}))
 
 
 main()
